@@ -778,10 +778,12 @@ namespace bloch::compiler {
 
         // Match primitive declarations or annotated declarations
         if (check(TokenType::At) || typeAhead) {
-            if (isFinal && !typeAhead && !check(TokenType::At)) {
-                reportError("Expected variable type after 'final'");
-            }
             return parseVariableDeclaration(isFinal);
+        }
+        // 'final' introduces a declaration only ('final echo(1);' and 'final x = 3;' used to be
+        // accepted with the keyword ignored: the test for it sat where it could not be reached)
+        if (isFinal) {
+            reportError("Expected variable type after 'final'");
         }
 
         // Standard statements
